@@ -25,6 +25,28 @@ def payload_field(prog, tree):
     return None
 
 
+def overwritten_before(prog, f, slot, reads, pf, own_store):
+    """is the payload of node(slot) written (directly or through a helper) at a site from which one of `reads` is reachable?"""
+    from summaries import node_writes
+    b = f.body
+    for (tgt, flds, vd, site, vv) in node_writes(prog, f):
+        if not flds or flds[0] != pf or site is own_store:
+            continue
+        same = (tgt[0] == 'val' and tgt[1] is slot) or (tgt[0] == 'param' and slot.kind == 'param' and slot.args[0] == tgt[1])
+        if not same:
+            continue
+        for r in reads:
+            rp = r.extra.get('read_point', r.point) if r.extra else r.point
+            if rp is None:
+                continue
+            if site.point[0] == rp[0]:
+                if site.point < rp:
+                    return 'by %s' % (site.callee_name() if getattr(site, 'kind', None) == 'call' else 'a store at line %s' % (site.span[1] if site.span else '?'))
+            elif rp[0] in b.cfg.reachable_from(site.point[0]):
+                return 'by %s' % (site.callee_name() if getattr(site, 'kind', None) == 'call' else 'a store at line %s' % (site.span[1] if site.span else '?'))
+    return None
+
+
 def run(ctx):
     prog = ctx.prog
     from rules.stale import removal_fns
@@ -63,6 +85,13 @@ def run(ctx):
                         if nf and nf[1] and nf[1][0] == pf:
                             srcs.append((strip(nf[0]), nf[1]))
                     ok = idx.kind == 'param' and len(srcs) == 1 and srcs[0][1] == (pf,)
+                    if ok:
+                        # the payload moved must be the one stored in the source slot when the removal began: no
+                        # payload write to that slot (here or in a helper) may precede the read
+                        over = overwritten_before(prog, f, srcs[0][0], [x for x in walk(val) if x.kind in ('load', 'ref') and prog.node_field(x) and strip(prog.node_field(x)[0]) is srcs[0][0]], pf, st)
+                        if over is not None:
+                            ctx.add(RULE, f, sig, 'violation', 'the payload moved into the removed slot is read from slot %s after that slot\'s own payload was overwritten (%s): the entry that was stored there is lost and another one is duplicated' % (show(srcs[0][0], 2), over), props, line)
+                            continue
                     if ok:
                         ctx.add(RULE, f, sig, 'ok', 'the removal overwrites the removed slot with the whole payload of one other slot (%s)' % show(srcs[0][0], 3), props, line)
                     else:
